@@ -81,15 +81,22 @@ def to_csv(val):
     # Make sure all individual values do not contain
     # leading or trailing whitespaces.
     unicode_values = list(map(str.strip, map(str, val)))
+    if not unicode_values:
+        return ""
+
+    # A single value is saved as it is unless it would be read as a list or not at all.
+    single = unicode_values[0]
+    if len(unicode_values) == 1 and single and not (single[0] == "[" and single[-1] == "]"):
+        return single
+
+    # Lists are saved as one csv row in brackets; values containing commas,
+    # double quotes or line breaks are quoted by the csv.writer.
     stream = StringIO()
     writer = csv.writer(stream, dialect="excel")
     writer.writerow(unicode_values)
-    # Strip any csv.writer added carriage return line feeds
-    # and double quotes before saving.
-    csv_string = stream.getvalue().strip().strip('"')
-    if len(unicode_values) > 1:
-        csv_string = "[" + csv_string + "]"
-    return csv_string
+    # Remove the line terminator added by the csv.writer.
+    csv_string = stream.getvalue()[:-len(writer.dialect.lineterminator)]
+    return "[" + csv_string + "]"
 
 
 def from_csv(value_string):
